@@ -145,7 +145,7 @@ class Seq:
                 s = sort_of(it)
                 if srt is None or (srt == z3.IntSort() and s == z3.RealSort()):
                     srt = s
-            return srt or z3.IntSort()
+            return z3.IntSort() if srt is None else srt
         return self.arr.sort().range()
 
     def to_symbolic(self):
